@@ -10,6 +10,8 @@ from __future__ import annotations
 import math
 from dataclasses import dataclass, field
 from fractions import Fraction
+
+from hv import core
 from typing import Any, Dict, List, Optional, Tuple
 
 SYNC_DEVICE_NAMES = ("Event Sync", "Context Sync")
@@ -73,7 +75,7 @@ def _stream_of(args: Dict[str, Any]) -> int:
 
 def model(events: List[Dict[str, Any]], rounding: bool = True) -> List[Ev]:
     """C01 image of every complete event of one file."""
-    fl = ts_column_is_float(events) and rounding
+    fl = ts_column_is_float(events) and rounding and not core.FLOAT_MODE
     out: List[Ev] = []
     for i, e in enumerate(events):
         if not is_complete(e):
